@@ -410,7 +410,7 @@ def gen_descr_op(rng, doc):
     if rng.random() < 0.12:
         chain[-1] = [rng.choice(gen.KEYS), None]          # a missing attribute
     if r < 0.5:
-        return ["d.get", chain, rng.choice(["get", "get", "get", "find", "find", "get_match", "get_match", "itc", "itx"]),
+        return ["d.get", chain, rng.choice(["get", "get", "get", "find", "find", "find_matches", "get_match", "get_match", "itc", "itx"]),
                 rng.choice(["id", "id", "neg", "box"])]
     if r < 0.85:
         kind = rng.choice(["iter", "iterc", "iterx"]) if rng.random() < 0.2 else "plain"
